@@ -213,7 +213,13 @@ def make(fkeys, ncheck, nrows, fmt, allowed_text, allowed, mode, runs, ragged=No
                 del LOG[:]
                 close_raised = False
                 if mode == "writer":
-                    with patched((validio.rowio, "DelimitedRowWriter", FakeRowWriter)):
+                    from cutplace import _compat as _cp
+
+                    class _Recorder:
+                        def writerow(self, row):
+                            pass
+
+                    with patched((_cp, "csv_writer", lambda stream, **kw: _Recorder())):
                         w = validio.Writer(cid, object())
                         for row in rows:
                             try:
@@ -330,11 +336,21 @@ def native_resolution():
     class LateCheck(checks.AbstractCheck):
         pass
 
+    class CheckDigitCheck(checks.AbstractCheck):  # a type name that itself contains the word "Check"
+        pass
+
+    class FieldFormatVersionFieldFormat(fields.AbstractFieldFormat):  # ... and one containing "FieldFormat"
+        def __init__(self, field_name, is_allowed_to_be_empty, length, rule, data_format):
+            super().__init__(field_name, is_allowed_to_be_empty, length, rule, data_format, empty_value="")
+
+        def validated_value(self, value):
+            return value
+
     for text, ok in (("d,format,delimited\nf,x,,,,Late\nc,some,Late,x\n", True),
                      ("d,format,delimited\nf,x,,,,plugins.Late\n", True),
                      ("d,format,delimited\nf,x,,,,late\n", False),
                      ("d,format,delimited\nf,x\nc,some,late,x\n", False),
-                     ("d,format,delimited\nf,x,,,,LateFieldFormat\n", False),
+                     ("d,format,delimited\nf,x,,,,FieldFormatVersion\nc,digit,CheckDigit,x\n", True),
                      ("d,format,delimited\nf,x,,,,Text\nc,u,IsUnique,x\n", True)):
         n += 1
         try:
